@@ -883,6 +883,80 @@ def gen_markers():
     return "\n".join(out) + "\n"
 
 
+ENCODER = {"write_bool": "encBool", "write_nil": "encNil", "write_sint": "encSint", "write_f64": "encF64",
+           "write_str_len": "encStrLen", "write_map_len": "encMapLen", "write_array_len": "encArrLen"}
+STATE_FN = {"write_non_string_scalar": "WState.writeNonStringScalar", "write_string": "WState.writeString"}
+
+
+def gen_writer():
+    """Gen/WriterStep.lean: which state-machine method each provider write function consults and which
+    rmp encoder it calls with which argument (provider/src/write.rs, `impl Context`)"""
+    src = strip_comments(strip_tests(read("provider/src/write.rs")))
+
+    def body(fn):
+        m = re.search(r"fn\s+%s\s*\(([^)]*)\)\s*->\s*([^{]+?)\s*\{" % fn, src)
+        if not m:
+            raise ExtractError("Context::%s not found" % fn)
+        depth, i = 1, m.end()
+        while depth and i < len(src):
+            depth += {"{": 1, "}": -1}.get(src[i], 0)
+            i += 1
+        return re.sub(r"\s+", "", src[m.end():i - 1])
+
+    out = ["-- REGENERATED by /verif/extract/extract.py from provider/src/write.rs (impl Context); do not edit",
+           "import SfVerif.Model.Writer", "namespace SfVerif.Gen", "open SfVerif SfVerif.Gen",
+           "/-- one provider write call, assembled from what each Rust function consults and emits -/",
+           "def writerStepGen (w : Writer) : WOp → Writer × Nat × Option Nat"]
+    # scalars: state method, encoder, argument
+    for fn, ctor, arg, lean_arg in [("write_bool", ".bool v", "bool", "v"), ("write_nil", ".null", None, None),
+                                    ("write_i32", ".i32 z", "intasi64", "z"), ("write_f64", ".f64 bits", "float", "bits")]:
+        b = body(fn)
+        m = re.fullmatch(r"letresult=self\.write_state\.(\w+)\(\);ifresult!=WriteResult::Ok\{returnresult;\}"
+                         r"encode::(\w+)\(&mutself\.output_bytes(?:,(\w+))?\)\.unwrap\(\);WriteResult::Ok", b)
+        if not m or m.group(1) not in STATE_FN or m.group(2) not in ENCODER or (m.group(3) or None) != arg:
+            raise ExtractError("Context::%s changed shape: %s" % (fn, b[:160]))
+        enc = ENCODER[m.group(2)] + ((" " + lean_arg) if lean_arg else "")
+        out += ["  | %s =>" % ctor,
+                "    let (st, r) := %s w.st" % STATE_FN[m.group(1)],
+                "    if r ≠ WriteResult_Ok then ({ w with st := st }, r, none)",
+                "    else (({ w with st := st }).appendBytes (%s), r, none)" % enc]
+    b = body("allocate_utf8_str")
+    want = ("letresult=self.write_state.write_string();ifresult!=WriteResult::Ok{return(result,std::ptr::null());}"
+            "encode::write_str_len(&mutself.output_bytes,lenasu32).unwrap();letoriginal_len=self.output_bytes.as_slice().len();"
+            "self.output_bytes.as_mut_vec().resize(original_len+len,0);(WriteResult::Ok,self.output_bytes.as_slice()[original_len..].as_ptr(),)")
+    if b != want:
+        raise ExtractError("Context::allocate_utf8_str changed shape: %s" % b[:200])
+    out += ["  | .strAlloc len =>",
+            "    let (st, r) := WState.writeString w.st",
+            "    if r ≠ WriteResult_Ok then ({ w with st := st }, r, none)",
+            "    else",
+            "      let w1 := ({ w with st := st }).appendBytes (encStrLen len)",
+            "      let off := w1.out.size",
+            "      ({ w1 with out := w1.out ++ Array.replicate len 0 }, r, some off)"]
+    for fn, ctor, sm, newst, enc in [("start_object", ".obj len", "start_object", ".obj len 0", "write_map_len"),
+                                     ("start_array", ".arr len", "start_array", ".arr len 0", "write_array_len")]:
+        b = body(fn)
+        want = ("letresult=self.write_state.%s(len,&mutself.write_parent_state_stack);ifresult!=WriteResult::Ok{returnresult;}"
+                "encode::%s(&mutself.output_bytes,lenasu32).unwrap();WriteResult::Ok" % (sm, enc))
+        if b != want:
+            raise ExtractError("Context::%s changed shape: %s" % (fn, b[:200]))
+        out += ["  | %s =>" % ctor,
+                "    let (st, stack, r) := WState.startContainer (%s) w.st w.stack" % newst,
+                "    if r ≠ WriteResult_Ok then ({ w with st := st, stack := stack }, r, none)",
+                "    else (({ w with st := st, stack := stack }).appendBytes (%s len), r, none)" % ENCODER[enc]]
+    for fn, ctor, sm, lean in [("finish_object", ".endObj", "finish_object", "WState.finishObject"),
+                               ("finish_array", ".endArr", "finish_array", "WState.finishArray")]:
+        b = body(fn)
+        want = ("letresult=self.write_state.%s(&mutself.write_parent_state_stack);ifresult!=WriteResult::Ok{returnresult;}WriteResult::Ok" % sm)
+        if b != want:
+            raise ExtractError("Context::%s changed shape: %s" % (fn, b[:200]))
+        out += ["  | %s =>" % ctor,
+                "    let (st, stack, r) := %s w.st w.stack" % lean,
+                "    ({ w with st := st, stack := stack }, r, none)"]
+    out.append("end SfVerif.Gen")
+    return "\n".join(out) + "\n"
+
+
 FNS_HEADER = ["-- REGENERATED by /verif/extract/extract.py (rs2lean) from function bodies in /repo; do not edit",
               "import SfVerif.Gen.Consts", "import SfVerif.Gen.Enums", "namespace SfVerif.Gen"]
 
@@ -1013,7 +1087,8 @@ def main():
     for fname, prefix, gen in [("FnsNanBox.lean", "fns-nanbox", lambda: gen_fns_nanbox(re.findall(r"^def ([A-Z0-9_]+) ", consts or "", flags=re.M))),
                                ("FnsLogs.lean", "fns-logs", gen_fns_logs),
                                ("FnsState.lean", "fns-state", gen_fns_state),
-                               ("Markers.lean", "markers", gen_markers)]:
+                               ("Markers.lean", "markers", gen_markers),
+                               ("WriterStep.lean", "writer", gen_writer)]:
         try:
             text = gen()
             if write_if_changed(fname, text):
